@@ -249,6 +249,11 @@ async fn one_stmt<S: Storage>(catalog: &RootCatalogRef, storage: &Arc<S>, stat: 
     out
 }
 
+/// Run one setup statement through the mini pipeline (used by other engines).
+pub async fn one_stmt_pub<S: Storage>(catalog: &RootCatalogRef, storage: &Arc<S>, stat: &Statistics, config: &Config, sql: &str) -> Value {
+    one_stmt(catalog, storage, stat, config, sql, true).await
+}
+
 async fn run_job_with<S: Storage>(job: &Value, catalog: RootCatalogRef, storage: Arc<S>, config: Config) -> Value {
     let mut stat = Statistics::default();
     let mut setup_ok = true;
